@@ -330,3 +330,134 @@ def feasible_reach(body, start, stop=(), env=None, limit=20000):
         for s2 in succ:
             st.append((s2, e2))
     return out
+
+
+# ---- symbolic expression of a value (single-definition chasing into a canonical term string) ---------
+def expr(body, operand, depth=0, _seen=None):
+    """Canonical term for an operand: constants, argument places, field paths, binary ops, casts, calls
+    (callee short name + argument terms), enum payload projections.  Temporaries with a single definition
+    are expanded; anything else is left as its place string.  Robust to renaming and statement order."""
+    if operand["k"] == "const":
+        c = operand["c"]
+        if "int" in c:
+            return c["int"]
+        if "fn" in c:
+            return "fn:" + c["fn"]["path"]
+        if c.get("static"):
+            return "static:" + c["static"]
+        return c.get("def") or c.get("text", "?")
+    return place_expr(body, operand["place"], depth, _seen or frozenset())
+
+
+def _proj_text(e):
+    k = e["k"]
+    if k == "field":
+        return "." + e["name"]
+    if k == "downcast":
+        return "@" + e["variant"]
+    if k == "deref":
+        return ".*"
+    if k == "index":
+        return "[_%d]" % e["l"]
+    if k == "cindex":
+        return "[%s%d]" % ("-" if e["from_end"] else "", e["offset"])
+    return "<%s>" % k
+
+
+def place_expr(body, place, depth=0, seen=frozenset()):
+    l = place["l"]
+    proj = list(place["p"])
+    if depth > 40 or l in seen:
+        return place_str(place)
+    if 0 < l <= body.arg_count:
+        base = "arg%d" % l
+        # deref of an argument reference is transparent
+        return base + "".join(_proj_text(e) for e in proj if e["k"] != "deref")
+    ds = body.defs_of(l)
+    if len(ds) != 1:
+        # multiple definitions (phi) or field-wise initialisation
+        nm = body.varnames.get(l)
+        base = "var:%s" % nm if nm else "_%d" % l
+        return base + "".join(_proj_text(e) for e in proj if e["k"] != "deref")
+    bb, si, rv = ds[0]
+    seen = seen | {l}
+    if si == "term":
+        t = rv
+        nm = callee_short(t)
+        full = (t["fn"].get("resolved") or t["fn"].get("path") or "?")
+        if any(call_matches(t, p) for p in TRANSPARENT_CALLS) and t["args"]:
+            base = expr(body, t["args"][0], depth + 1, seen)
+        else:
+            base = "%s(%s)" % (_short_path(full), ", ".join(expr(body, a, depth + 1, seen) for a in t["args"]))
+        return base + "".join(_proj_text(e) for e in proj if e["k"] != "deref")
+    k = rv["k"]
+    if k == "use":
+        o = rv["a"]
+        if o["k"] == "const":
+            return expr(body, o, depth + 1, seen) + "".join(_proj_text(e) for e in proj if e["k"] != "deref")
+        return place_expr(body, {"l": o["place"]["l"], "p": o["place"]["p"] + proj}, depth + 1, seen)
+    if k in ("ref", "rawptr"):
+        # &P followed by deref cancels; keep the rest
+        p2 = rv["place"]
+        rest = proj[1:] if proj and proj[0]["k"] == "deref" else proj
+        return place_expr(body, {"l": p2["l"], "p": p2["p"] + rest}, depth + 1, seen)
+    if k == "agg":
+        # descend into the selected field when the projection names one
+        pr = [e for e in proj if e["k"] != "deref"]
+        if rv["ak"] in ("tuple", "adt", "closure"):
+            # downcast@Variant then field
+            idx = 0
+            if pr and pr[0]["k"] == "downcast":
+                if rv["ak"] == "adt" and rv.get("variant") == pr[0]["variant"]:
+                    idx = 1
+                else:
+                    return "%s%s" % (_agg_text(body, rv, depth, seen), "".join(_proj_text(e) for e in pr))
+            if len(pr) > idx and pr[idx]["k"] == "field":
+                fi = pr[idx]["i"]
+                if fi < len(rv["fields"]):
+                    o = rv["fields"][fi]
+                    rest = pr[idx + 1:]
+                    if o["k"] == "const":
+                        return expr(body, o, depth + 1, seen) + "".join(_proj_text(e) for e in rest)
+                    return place_expr(body, {"l": o["place"]["l"], "p": o["place"]["p"] + rest}, depth + 1, seen)
+        return _agg_text(body, rv, depth, seen) + "".join(_proj_text(e) for e in pr)
+    if k == "bin":
+        op = rv["op"].replace("WithOverflow", "")
+        base = "%s(%s, %s)" % (op, expr(body, rv["a"], depth + 1, seen), expr(body, rv["b"], depth + 1, seen))
+        pr = [e for e in proj if not (e["k"] == "field" and e["name"] == "0")]
+        return base + "".join(_proj_text(e) for e in pr if e["k"] != "deref")
+    if k == "un":
+        return "%s(%s)" % (rv["op"], expr(body, rv["a"], depth + 1, seen))
+    if k == "cast":
+        if rv["ck"] == "IntToInt" or rv["ck"].startswith("PointerCoercion"):
+            return "(%s as %s)" % (expr(body, rv["a"], depth + 1, seen), rv["ty"]) if rv["ck"] == "IntToInt" else expr(body, rv["a"], depth + 1, seen)
+        return "cast:%s(%s)" % (rv["ck"], expr(body, rv["a"], depth + 1, seen))
+    if k == "discr":
+        return "discr(%s)" % place_expr(body, rv["place"], depth + 1, seen)
+    return "_%d" % l + "".join(_proj_text(e) for e in proj)
+
+
+def _short_path(p):
+    m = re.match(r"^<(.*) as ([^<>]*?)(<.*>)?>::(\w+)$", p)
+    if m:
+        tr = m.group(2).split("::")[-1]
+        return "%s::%s" % (tr, m.group(4))
+    p = re.sub(r"<[^<>]*>", "", p)
+    p = re.sub(r"<[^<>]*>", "", p)
+    parts = [x for x in p.split("::") if x]
+    return "::".join(parts[-2:]) if len(parts) >= 2 else p
+
+
+def _agg_text(body, rv, depth, seen):
+    fs = ", ".join(expr(body, f, depth + 1, seen) for f in rv["fields"])
+    if rv["ak"] == "adt":
+        nm = rv["adt"].split("::")[-1]
+        if rv["is_enum"]:
+            nm += "::" + rv["variant"]
+        if rv["fnames"] and not rv["fnames"][0].isdigit():
+            fs = ", ".join("%s: %s" % (n, expr(body, f, depth + 1, seen)) for n, f in zip(rv["fnames"], rv["fields"]))
+            return "%s{%s}" % (nm, fs)
+        return "%s(%s)" % (nm, fs)
+    if rv["ak"] == "closure":
+        return "closure:%s[%s]" % (rv["def"].split("::")[-1], fs)
+    return "%s(%s)" % (rv["ak"], fs)
